@@ -392,6 +392,21 @@ func (e *Engine) validateKeys() error {
 			}
 		}
 	})
+	// methods of anonymous interface types (x.(interface{ M() })) are keyed by the interface's text
+	for _, p := range e.pkgs {
+		for _, f := range p.Syntax {
+			ast.Inspect(f, func(n ast.Node) bool {
+				if it, ok := n.(*ast.InterfaceType); ok {
+					if t, ok := p.TypesInfo.TypeOf(it).(*types.Interface); ok {
+						for i := 0; i < t.NumMethods(); i++ {
+							known[funcKey(t.Method(i))] = true
+						}
+					}
+				}
+				return true
+			})
+		}
+	}
 	var bad []string
 	for _, k := range sortedKeys(e.contracts) {
 		if strings.Contains(k, "$") {
@@ -657,6 +672,9 @@ func (e *Engine) onGo(c *Ctx, s *State, x *ast.GoStmt) {
 	sig := callee.Type().(*types.Signature)
 	env := c.calleeEnv(k, sig, callee, recv, args, s)
 	for _, r := range k.Requires {
+		if hasTag(r.Tags, "local") {
+			continue // about goroutine-local ghost state, initialised when the goroutine starts
+		}
 		g := c.cevalBoolEnv(r.Expr, env)
 		c.oblige(s, "pre:go:"+key, r.Text, x.Pos(), g, r.Tags)
 	}
@@ -930,6 +948,12 @@ func (e *Engine) verifyFunc(key string) (c *Ctx, err error) {
 		return c, nil
 	}
 	s.assume(le("0", c.heapGet(s, "X.nheld", sInt))) // ghost count of held mutexes
+	{
+		// ghost marks exist only for allocated objects: an object that does not exist yet is neither marked unavailable nor closed
+		al := c.heapGet(s, "X.alloc", sA1)
+		un := c.heapGet(s, "X.unavail", sA1)
+		s.assume(fmt.Sprintf("(forall ((r Int)) (! (=> (not (= (select %s r) 1)) (= (select %s r) 0)) :pattern ((select %s r))))", al, un, un))
+	}
 	c.frameInit()
 	c.smoke(s, "entry", fi.decl.Body.Lbrace)
 	exits := c.execBlock(fi.decl.Body.List, s)
@@ -1089,6 +1113,11 @@ func (c *Ctx) frameInit() {
 func (c *Ctx) frameCovered(key string) bool {
 	if strings.HasPrefix(key, "L.") || key == "X.nheld" || key == "X.alloc" {
 		return true
+	}
+	for _, h := range c.con.Hides {
+		if h == key {
+			return true
+		}
 	}
 	for _, m := range c.frameKeys {
 		if m == "all" || m == key {
